@@ -309,6 +309,18 @@ func runC08(w *World, pi interface{}) {
 		_ = n
 	}()
 	ch := lime.NewClientChannel(tr, p.Buf)
+	// an observer looks at the channel between any two scheduler steps: the moment it calls itself
+	// established it must already carry the id and the nodes of the established envelope
+	halfAdopted := ""
+	halfStep := 0
+	w.AfterEachStep(func() {
+		if halfAdopted == "" && ch.Established() {
+			if ch.ID() == "" || ch.LocalNode().String() == "" || ch.RemoteNode().String() == "" {
+				halfStep = simrt.Step()
+				halfAdopted = fmt.Sprintf("id=%q local=%q remote=%q at step %d", ch.ID(), ch.LocalNode().String(), ch.RemoteNode().String(), simrt.Step())
+			}
+		}
+	})
 	var ses *lime.Session
 	var eerr error
 	ident := lime.Identity{Name: "alice", Domain: "cli.org"}
@@ -360,6 +372,19 @@ func runC08(w *World, pi interface{}) {
 			if fstr(ret.Frame, "local") != lime.ParseNode(fstr(word, "to")).String() || fstr(ret.Frame, "remote") != lime.ParseNode(fstr(word, "from")).String() {
 				w.Violate("C08.adopted-other-nodes", sig("nodes"), "the client reports local=%q remote=%q, the established envelope says to=%q from=%q", fstr(ret.Frame, "local"), fstr(ret.Frame, "remote"), fstr(word, "to"), fstr(word, "from"))
 			}
+		}
+	}
+	if halfAdopted != "" {
+		// (only when the established envelope carried them: a scripted server may leave them out)
+		var word map[string]interface{}
+		for _, e := range h.Ev {
+			// the established envelope the client adopted: the first one (a channel becomes established once)
+			if word == nil && e.Kind == "c-send" && isSessionFrame(e.Frame) && fstr(e.Frame, "state") == "established" && e.Step <= halfStep {
+				word = e.Frame
+			}
+		}
+		if fstr(word, "id") != "" && lime.ParseNode(fstr(word, "to")).String() != "" && lime.ParseNode(fstr(word, "from")).String() != "" {
+			w.Violate("C08.established-before-adopting-session", sig("observer"), "an observer saw the channel report itself established before it had adopted the session id and nodes of the established envelope (%s)\n%s", halfAdopted, h.Dump(40))
 		}
 	}
 	// echoes the latest id; credentials only on request
